@@ -30,6 +30,10 @@ pub struct Cfg {
     pub upper: usize,
     pub prealloc: bool,
     pub sha2: bool,
+    /// 0 = none, 1 = PanicOnSyncMode::PostWal, 2 = PostMeta: every sync of this handle panics there
+    pub panic: u8,
+    /// rollback segment size override (hook H2); 0 = the default 64 MiB
+    pub segsz: u64,
 }
 
 impl Default for Cfg {
@@ -48,18 +52,27 @@ impl Default for Cfg {
             upper: 2,
             prealloc: false,
             sha2: false,
+            panic: 0,
+            segsz: 0,
         }
     }
 }
 
 impl Cfg {
     pub fn to_line(&self) -> String {
-        format!(
+        let mut s = format!(
             "cc={} warm={} io={} pc={} lc={} ht={} seed={} rb={} ml={} prepop={} upper={} prealloc={} sha2={}",
             self.cc, self.warm as u8, self.io, self.pc, self.lc, self.ht, self.seed,
             self.rollback as u8, self.max_len, self.prepop as u8, self.upper, self.prealloc as u8,
             self.sha2 as u8
-        )
+        );
+        if self.panic != 0 {
+            s += &format!(" panic={}", self.panic);
+        }
+        if self.segsz != 0 {
+            s += &format!(" segsz={}", self.segsz);
+        }
+        s
     }
     pub fn parse(s: &str) -> Cfg {
         let mut c = Cfg::default();
@@ -79,6 +92,8 @@ impl Cfg {
                 "upper" => c.upper = v.parse().unwrap(),
                 "prealloc" => c.prealloc = v == "1",
                 "sha2" => c.sha2 = v == "1",
+                "panic" => c.panic = v.parse().unwrap(),
+                "segsz" => c.segsz = v.parse().unwrap(),
                 _ => panic!("cfg key {}", k),
             }
         }
@@ -102,6 +117,13 @@ impl Cfg {
         o.prepopulate_page_cache(self.prepop);
         o.page_cache_upper_levels(self.upper);
         o.preallocate_ht(self.prealloc);
+        // thread-local: the rollback log opened next on this thread uses this segment size
+        nomt::verif_api::set_rollback_segment_size(if self.segsz == 0 { None } else { Some(self.segsz) });
+        match self.panic {
+            1 => o.panic_on_sync(nomt::PanicOnSyncMode::PostWal),
+            2 => o.panic_on_sync(nomt::PanicOnSyncMode::PostMeta),
+            _ => {}
+        }
         o
     }
 }
@@ -920,6 +942,32 @@ impl<H: HashAlgorithm> Runner<H> {
                 } else {
                     panic!("script: commit of unknown changeset {}", c);
                 }
+                let crash_mode = self.cfg.as_ref().map(|c| c.panic).unwrap_or(0);
+                if crash_mode != 0 {
+                    // a handle opened with panic_on_sync: the commit "crashes" inside sync, before
+                    // (PostWal) or after (PostMeta) the manifest is durable; the handle is dropped
+                    // and the script must reopen the directory (recovery) next
+                    match &got {
+                        Err(p) if p.contains("panic_on_sync") => {}
+                        other => return Err(self.mm("skip", i, format!("crash commit: expected the panic_on_sync panic, got {:?}", other))),
+                    }
+                    if crash_mode == 2 {
+                        let m = self.model.ask(&format!("commit {} 0", c));
+                        if m != "ok" {
+                            return Err(self.mm("skip", i, format!("crash commit: model says {}", m)));
+                        }
+                        self.stats.commits += 1;
+                    } else {
+                        self.model.expect_ok(&format!("drop {}", c));
+                    }
+                    self.invalidate();
+                    self.sessions.clear();
+                    self.finished.clear();
+                    self.overlays.clear();
+                    self.last_util = None;
+                    drop(self.db.take());
+                    return Ok(());
+                }
                 let m = self.model.ask(&format!("commit {} {}", c, busy as u8));
                 self.invalidate();
                 let got = match got {
@@ -962,7 +1010,12 @@ impl<H: HashAlgorithm> Runner<H> {
                 self.stats.rollbacks += 1;
                 let got = match got {
                     Ok(Ok(())) => "ok",
-                    Ok(Err(_)) => "err",
+                    Ok(Err(e)) => {
+                        if std::env::var("VERIF_DEBUG").is_ok() {
+                            eprintln!("rollback({}) failed: {:#}", n, e);
+                        }
+                        "err"
+                    }
                     Err(p) => return Err(self.mm("panic", i, format!("rollback panicked: {}", p))),
                 };
                 if got != m {
